@@ -92,3 +92,23 @@ Theorem C05_accept_iff_ground_truth :
      3 * length items > 2 * length vals).
 Proof. exact gt_accept_iff. Qed.
 Print Assumptions C05_accept_iff_ground_truth.
+
+(* the fast-sync path (consensus.processBlock: toVoteList + precommit vote set)
+   consumes a block iff every item of its list is a validator's precommit
+   signature for exactly this block, the DISTINCT signer positions are more
+   than two thirds of the validators, and the part-set id voted for is the
+   block's own.  Unlike VerifyBlock it tolerates a repeated signer (the
+   repetition does not count). *)
+Theorem C05_fastsync_accept_iff :
+  forall (sigT addrT : Type) (addr_eqb : addrT -> addrT -> bool)
+         (recover : vote_msg -> sigT -> option addrT),
+  forall height round bid ps real (vals : list addrT) (items : list (Z * sigT)),
+    fs_accept addr_eqb recover height round bid ps real vals items = true <->
+    exists idxs distinct,
+      Forall2 (fun it i => signer_index addr_eqb recover (item_msg height round bid ps) vals it = Some i)
+              items idxs /\
+      NoDup distinct /\ (forall i, In i distinct <-> In i idxs) /\
+      3 * length distinct > 2 * length vals /\
+      ps_id_matches ps real = true.
+Proof. exact @fs_accept_iff. Qed.
+Print Assumptions C05_fastsync_accept_iff.
